@@ -312,6 +312,23 @@ func directed(w *sim.World, out *c.Out, r *c.Rng) {
 			out.Violation("cdp-draw-accepted-while-liquidation-feed-down (former finding F12, fixed by cb3596bb2)")
 		}
 	}
+	// the liquidation block interval is 3 and only ONE of the two feeds of xrp-a goes away, seen first by a block on
+	// which the liquidation pass does not run; two blocks later it is back, again between liquidation blocks: the four
+	// operations are refused in exactly the blocks in which x/pricefeed has no price (sequences -9: liquidation
+	// market, -10: spot market, -11: liquidation market with both events ON liquidation blocks)
+	for i, pl := range []sim.FeedPlan{
+		{Ty: 3, Liq: true, Down: 2, After: 2, Gap: 2},
+		{Ty: 3, Spot: true, Down: 2, After: 2, Gap: 1},
+		{Ty: 3, Liq: true, DownAtLiq: true, UpAtLiq: true, Down: 1, After: 2, Gap: 5},
+	} {
+		p := sim.DefaultParams()
+		p.LiquidationBlockInterval = 3
+		s := w.NewSeq(out, "c05.op", -9-i, r.Fork(uint64(9109+i)), p)
+		s.NextBlock(1, "feed-setup")
+		s.Create(4, 3, new(big.Int).Mul(bi(400), sim.Pow10(6)), 4, bi(20000000), 0, "feed-setup")
+		s.Deposit(4, 8, 3, bi(5000000), 4, "feed-setup")
+		s.FeedEpisode(pl)
+	}
 }
 
 // governance moves the liquidation ratio while CDPs exist: "seized only when under-collateralised" and "no
@@ -605,6 +622,58 @@ func lotsSeq(w *sim.World, out *c.Out, no int, r *c.Rng) {
 	s.NextBlock(1, "lots-after")
 }
 
+// ---------------------------------------------------------------- c05.gate
+
+// feedSeq: a short directed-random history about the price-feed gate: liquidation block interval 2, 3, 4 or 7, a
+// collateral type whose liquidation market differs from its spot market (now and then the same market, the control),
+// one or two CDPs with room above the ratio, then one or two outage episodes (sim/feed.go): one market — or both, or
+// one after the other — loses its price at a chosen phase of the interval, stays away for a few blocks and comes back
+// at a chosen phase; create / draw / deposit / withdraw are attempted in every block.  Every step is also an
+// ordinary c05.op case.
+func feedSeq(w *sim.World, out *c.Out, no int, r *c.Rng) {
+	p := sim.DefaultParams()
+	if r.Chance(50) {
+		p = sim.RandomParams(r)
+		huge := sdkmath.NewIntFromBigInt(sim.Pow10(30))
+		p.DebtAuctionThreshold, p.SurplusAuctionThreshold = huge, huge
+	}
+	p.LiquidationBlockInterval = c.Pick(r, []int64{2, 3, 3, 4, 7})
+	if r.Chance(8) {
+		p.LiquidationBlockInterval = 1
+	}
+	ty := r.Intn(sim.NBase)
+	t := sim.Types[ty]
+	cp := &p.CollateralParams[ty]
+	if r.Chance(12) {
+		cp.LiquidationMarketID = cp.SpotMarketID
+	} else if r.Chance(10) {
+		cp.SpotMarketID, cp.LiquidationMarketID = cp.LiquidationMarketID, cp.SpotMarketID
+	}
+	s := w.NewSeq(out, "c05.op", no, r, p)
+	s.NextBlock(1, "feed-setup")
+	price := new(big.Int).Mul(bi(2), P18)
+	L := cp.LiquidationRatio.BigInt()
+	floor := p.DebtParam.DebtFloor.BigInt()
+	for i, n := 0, 1+r.Intn(2); i < n; i++ {
+		owner := 3 + i
+		debt := new(big.Int).Add(floor, r.BigBelow(new(big.Int).Mul(floor, bi(4))))
+		// collateral for two to four times the debt at the ratio: room to draw and to withdraw
+		need := new(big.Int).Mul(debt, L)
+		need.Mul(need, sim.Pow10(t.CF))
+		need.Quo(need, new(big.Int).Mul(price, sim.Pow10(6)))
+		col := new(big.Int).Add(new(big.Int).Mul(need, bi(r.Range(2, 4))), bi(r.Range(1, 1000)))
+		if bal := s.Pre().Bal[owner][t.DenomID]; col.Cmp(bal) > 0 {
+			col = new(big.Int).Set(bal)
+		}
+		if cls, _ := s.Create(owner, ty, col, t.DenomID, debt, 0, "feed-setup"); cls == kapp.OK && r.Chance(50) {
+			s.Deposit(owner, 3+r.Intn(sim.NUsers), ty, new(big.Int).Add(r.BigBelow(sim.Pow10(t.CF)), bi(1)), t.DenomID, "feed-setup")
+		}
+	}
+	for e, n := 0, 1+r.Intn(2); e < n; e++ {
+		s.FeedEpisode(s.RandomFeedPlan(ty))
+	}
+}
+
 func main() {
 	out := c.NewOut(c.OutPath())
 	defer out.Close()
@@ -613,6 +682,7 @@ func main() {
 	nBlock := c.Budget(3000, 80000)
 	n := c.Budget(100, 1200)
 	nLots := c.Budget(160, 3000)
+	nFeed := c.Budget(60, 1500)
 	nops := 50
 	if c.Tier() == "thorough" {
 		nops = 100
@@ -620,8 +690,10 @@ func main() {
 	workers := c.Workers()
 	// the pure streams are split into `workers` chunks that run as sequences of their own
 	chunks := workers * 2
-	kapp.RunSeqs(n+2*chunks+nLots, workers, r, sim.NewWorldBarrier(workers), func(w *sim.World, seq int, r *c.Rng) {
+	kapp.RunSeqs(n+2*chunks+nLots+nFeed, workers, r, sim.NewWorldBarrier(workers), func(w *sim.World, seq int, r *c.Rng) {
 		switch {
+		case seq >= n+2*chunks+nLots:
+			feedSeq(w, out, seq, r)
 		case seq < chunks:
 			pureCases(w, out, r, nPure/chunks+1)
 		case seq < 2*chunks:
@@ -640,7 +712,10 @@ func main() {
 					randLotParams(lr, &rp.CollateralParams[i], sim.TypeID(rp.CollateralParams[i].Type))
 				}
 			}
+			// liquidation block interval: between two liquidation blocks the begin blocker does less
+			rp.LiquidationBlockInterval = c.Pick(r.Fork(7706), []int64{1, 1, 2, 3, 4, 7})
 			s := w.NewSeq(out, "c05.op", seq, r, rp)
+			s.FeedPct = 6 // price-feed outage episodes (sim/feed.go)
 			if seq%4 != 0 { // three histories in four see governance parameter changes at block boundaries
 				s.GovPct = 35
 			}
